@@ -40,6 +40,9 @@ type z15Srv struct {
 func (s *z15Srv) Ping(ctx gocontext.Context) error { mcrt.Yield("mock.Ping"); return nil }
 func (s *z15Srv) WaitUntilRunning(ctx gocontext.Context) error {
 	mcrt.Yield("mock.WaitUntilRunning")
+	if s.w.loadFail {
+		return errors.New("runner process died while loading")
+	}
 	return ctx.Err()
 }
 func (s *z15Srv) Completion(ctx gocontext.Context, req llm.CompletionRequest, fn func(llm.CompletionResponse)) error {
@@ -79,6 +82,8 @@ type z15World struct {
 	s       *Server
 	servers []*z15Srv
 	stop    func()
+	// loadFail: every runner started from now on dies while loading (WaitUntilRunning reports an error)
+	loadFail bool
 }
 
 func (w *z15World) call(method, path string, body any) (int, string) {
@@ -109,18 +114,33 @@ func (w *z15World) callRaw(method, path string, body []byte) (int, string) {
 
 // callGone is call with a client that may go away at any point: its request context is cancelled by a
 // separate thread, the handler keeps running until it returns (as under net/http).
-func (w *z15World) callGone(method, path string, body any) (int, string) {
+func (w *z15World) callGone(method, path string, body any, late bool) (int, string) {
 	var rd io.Reader
 	if body != nil {
 		b, _ := json.Marshal(body)
 		rd = bytes.NewReader(b)
 	}
 	ctx, cancel := mcrt.WithCancel(gocontext.Background())
-	mcrt.GoNamed("client", func() {
-		mcrt.Yield("client goes away")
-		mcrt.Observe("client gone")
-		cancel()
-	})
+	if !late {
+		// a thread of its own: it goes away at whatever scheduling point it gets to run (early by default,
+		// elsewhere at the price of schedule deviations)
+		mcrt.GoNamed("client", func() {
+			mcrt.Yield("client goes away")
+			mcrt.Observe("client gone")
+			cancel()
+		})
+	} else {
+		// or exactly before a request or a piece of a body, however late in the transfer (one deviation of class cancel)
+		gone := false
+		w.srv.OnNetPoint = func(label string) {
+			if !gone && mcrt.Choose(mcrt.Cancel, "client goes away before "+label, "no", "yes") == 1 {
+				gone = true
+				mcrt.Observe("client gone before %s", label)
+				cancel()
+			}
+		}
+		defer func() { w.srv.OnNetPoint = nil }()
+	}
 	req := httptest.NewRequest(method, path, rd).WithContext(ctx)
 	rec := httptest.NewRecorder()
 	w.h.ServeHTTP(rec, req)
@@ -195,12 +215,12 @@ func (w *z15World) do(q z15Req) {
 		code, body = w.callRaw("POST", "/api/blobs/"+fmt.Sprintf("sha256:%x", sha256.Sum256(data)), data)
 	case "pull":
 		code, body = w.call("POST", "/api/pull", api.PullRequest{Model: ztName, Stream: &z15Stream})
-	case "pull-gone":
-		code, body = w.callGone("POST", "/api/pull", api.PullRequest{Model: ztName, Stream: &z15Stream})
+	case "pull-gone", "pull-gone-late":
+		code, body = w.callGone("POST", "/api/pull", api.PullRequest{Model: ztName, Stream: &z15Stream}, q.Kind == "pull-gone-late")
 	case "push":
 		code, body = w.call("POST", "/api/push", api.PushRequest{Model: q.A, Stream: &z15Stream})
-	case "push-gone":
-		code, body = w.callGone("POST", "/api/push", api.PushRequest{Model: q.A, Stream: &z15Stream})
+	case "push-gone", "push-gone-late":
+		code, body = w.callGone("POST", "/api/push", api.PushRequest{Model: q.A, Stream: &z15Stream}, q.Kind == "push-gone-late")
 	default:
 		panic("bad request kind " + q.Kind)
 	}
@@ -222,6 +242,8 @@ type z15Scenario struct {
 	Cap    int               `json:"quick_total_cap,omitempty"`
 	// Redirect: the fake registry redirects upload parts to its CDN (parts then go up in parallel)
 	Redirect bool `json:"redirect,omitempty"`
+	// LoadFail: the runners the requests start die while loading
+	LoadFail bool `json:"load_fail,omitempty"`
 }
 
 func z15Body(sc z15Scenario) func() {
@@ -299,6 +321,7 @@ func z15Body(sc z15Scenario) func() {
 		}
 		mcrt.Deterministic(false)
 		mcos.E.Frozen = false
+		w.loadFail = sc.LoadFail
 
 		var wg mcrt.WaitGroup
 		for i, q := range sc.Reqs {
@@ -325,6 +348,8 @@ func z15Scenarios(thorough bool) []z15Scenario {
 		{Name: "generate-a|generate-b max1", Env: map[string]string{"OLLAMA_MAX_LOADED_MODELS": "1"}, Reqs: []z15Req{{Kind: "generate", A: "a"}, {Kind: "generate", A: "b"}}},
 		{Name: "chat|unload", Loaded: []string{"a"}, Reqs: []z15Req{{Kind: "chat", A: "a"}, {Kind: "unload", A: "a"}}},
 		{Name: "embed|ps", Reqs: []z15Req{{Kind: "embed", A: "a"}, {Kind: "ps"}}},
+		{Name: "generate-loadfail|ps", LoadFail: true, Reqs: []z15Req{{Kind: "generate", A: "a"}, {Kind: "ps"}}},
+		{Name: "generate-loadfail|generate", LoadFail: true, Cap: 2, Reqs: []z15Req{{Kind: "generate", A: "a"}, {Kind: "generate", A: "a"}}},
 		{Name: "generate|delete", Cap: 1, Reqs: []z15Req{{Kind: "generate", A: "a"}, {Kind: "delete", A: "a"}}},
 		{Name: "create|tags", Cap: 1, Reqs: []z15Req{{Kind: "create", A: "c", B: "S1"}, {Kind: "tags"}}},
 		{Name: "create|create", Cap: 1, Reqs: []z15Req{{Kind: "create", A: "c", B: "S1"}, {Kind: "create", A: "c", B: "S2"}}},
@@ -334,6 +359,9 @@ func z15Scenarios(thorough bool) []z15Scenario {
 		{Name: "blob|blob same", Cap: 1, Reqs: []z15Req{{Kind: "blob", A: "x"}, {Kind: "blob", A: "x"}}},
 		{Name: "blob|blob", Cap: 1, Reqs: []z15Req{{Kind: "blob", A: "x"}, {Kind: "blob", A: "y"}}},
 		{Name: "pull|pull", Cap: 1, Reqs: []z15Req{{Kind: "pull"}, {Kind: "pull"}}},
+		{Name: "pull-gone-late", Cap: 2, Reqs: []z15Req{{Kind: "pull-gone-late"}}},
+		{Name: "push-gone-late", Cap: 2, Reqs: []z15Req{{Kind: "push-gone-late", A: "reg.test/lib/up:tag"}}},
+		{Name: "push-gone-late redirect", Cap: 2, Redirect: true, Reqs: []z15Req{{Kind: "push-gone-late", A: "reg.test/lib/up:tag"}}},
 		{Name: "pull-gone", Cap: 2, Reqs: []z15Req{{Kind: "pull-gone"}}},
 		{Name: "push-gone", Cap: 2, Reqs: []z15Req{{Kind: "push-gone", A: "reg.test/lib/up:tag"}}},
 		{Name: "push-gone redirect", Cap: 1, Redirect: true, Reqs: []z15Req{{Kind: "push-gone", A: "reg.test/lib/up:tag"}}},
@@ -398,6 +426,7 @@ func ZZVerifC15() {
 	bounds[mcrt.Switch] = 1
 	bounds[mcrt.Time] = 1
 	bounds[mcrt.Order] = 1
+	bounds[mcrt.Cancel] = 1
 	total := 2
 	budget := 100 * gotime.Second
 	if thorough {
